@@ -7,4 +7,15 @@ def expectedC18 : List (String × String) := [("lits:graphalg.NewNodeMarks", "10
 /-- the constants and literals the C18 model mirrors are still what the source says -/
 theorem facts_C18 : holdsAll expectedC18 = true := by decide
 
+
+/-- State that outlives a call, as extracted from the source on this run: the package-level
+variables of the packages this property's code lives in, the functions (other than `init`) that
+assign to them or call methods on them, and the fields of the property's struct types. The model is
+a pure function of the arguments and of these fields; a new variable, writer or field is state the
+model does not know of. -/
+def stateC18 : List (String × String) := [("globals:graph", ""), ("globals:graphalg", ""), ("globals:graphout", ""), ("globalwrites:graph", ""), ("globalwrites:graphalg", ""), ("globalwrites:graphout", ""), ("fields:graphalg.NodeMarks", "marks:[]uint32"), ("fields:graphalg.SCCGraph", "subnodes:[]int subnodeIndexes:[]int subnodeComponent:[]int out:[]int outIndexes:[]int"), ("fields:graphalg.Euler", "Enter:func(nint) Exit:func(nint)"), ("fields:graphalg.simplified", "indexes:[]int edges:[]int weights:[]float64"), ("fields:graph.bigraph", "(embedded):Graph preds:[][]int"), ("fields:graph.listSubgraph", "underlying:Graph nodes:[]listSubgraphNode"), ("fields:graph.listSubgraphNode", "out:[]int oldNode:int oldEdges:[]int"), ("fields:graphout.Dot", "Name:string Label:func(nodeint)string NodeAttrs:func(nodeint)[]DotAttr EdgeAttrs:func(node,edgeint)[]DotAttr"), ("fields:graphout.DotAttr", "Name:string Val:interface{}")]
+
+/-- the source has exactly the package-level variables, writers and struct fields the model accounts for -/
+theorem state_C18 : holdsAll stateC18 = true := by decide +kernel
+
 end MV.Facts
